@@ -87,6 +87,7 @@ theorem augmentTree_eqK (reg : Registry) (id : Nat) (addErrors : Bool) (s : PSta
     augmentTree reg id addErrors s = augmentTreeK reg id addErrors s := by
   unfold augmentTree augmentTreeK
   simp only [find_eqK]
+  rfl
 
 def augmentPassK (reg : Registry) : (fuel : Nat) → (mods : Array Nat) → (i : Nat) → (processed : Nat) → PState →
     Array Nat × Nat × PState
